@@ -104,15 +104,11 @@ def _pts(rng, n, dim):
 
 
 def _distinct_pts(rng, n, dim):
-    """n points, consecutive ones distinct (non-zero chord lengths)."""
-    out = []
-    while len(out) < n:
-        p = [_dy(rng) for _ in range(dim)]
-        if not out or p != out[-1]:
-            out.append(p)
-    if out[0] == out[-1]:
-        out[-1][0] += 0.5
-    return out
+    """n points, consecutive ones (cyclically) distinct: non-zero chord lengths, also for the closing chord."""
+    while True:
+        out = [[_dy(rng) for _ in range(dim)] for _ in range(n)]
+        if all(out[i] != out[(i + 1) % n] for i in range(n)):
+            return out
 
 
 # ---------------------------------------------------------------------------------------------
@@ -215,8 +211,6 @@ def _cubic_spec(rng, bd, tier):
     if bd == 'PERIODIC' and rng.random() < 0.4:
         x = x + [list(x[0])]
         closed = True
-        if x[-2] == x[-1]:
-            x[-2][0] += 0.25
     user = rng.random() < 0.45
     t = None
     if user:
